@@ -8,9 +8,11 @@
    (amount = 0, crr = 100, sell = supply) return exactly the curve value; any value within the
    tolerance |f - ideal| <= 2^-33 ideal + 1 of the curve satisfies the approximate forms; the
    dispatcher's check (model 12) accepts a Go result iff it is within that tolerance.
+   At the transaction level (run c12tx): an accepted sell-all of a reserve-backed coin returns the formulas applied to
+   the curve after the fee (C12_tx_sell_all_on_the_curve_after_the_fee, any formula values).
    What is NOT proved but validated on every run (harness c12): that the 100-bit big.Float branch of
    formula.go is within the tolerance (hypothesis [oracle_ok] of C12_full_functions). *)
-From Minter Require Import Base Bancor BancorFacts BancorCheck.
+From Minter Require Import Base Bancor BancorFacts BancorCheck SwapTx SwapTxCurve.
 From Coq Require Import ZArith List.
 Import ListNotations.
 Open Scope Z_scope.
@@ -204,6 +206,47 @@ Example C12_go_value_outside_tolerance :
   run_bancor_op [1; 10 ^ 33; 94428938 * 10 ^ 21; 31; 2; 6565] = [1; 1].
 Proof. vm_compute. split; reflexivity. Qed.
 
+(* ---- at the transaction level (sell_all_coin.go, model Model/SwapTx.v, run c12tx of the check) ---------------- *)
+(* For ANY values of the four formula functions: an accepted sell-all of a reserve-backed coin returns the sale-return
+   formula applied to the curve the sale happens on — the coin's supply and reserve WITHOUT the fee when the fee was
+   converted through that coin's reserve (the DummyCoin of sell_all_coin.go), the untouched curve when it went through
+   the coin's pool — for the whole balance minus the fee, followed by the purchase-return formula on the bought coin's
+   curve when that is not the base coin. *)
+Theorem C12_tx_sell_all_on_the_curve_after_the_fee :
+  forall (o_pr o_pa o_sr o_sa : Z -> Z -> Z -> Z -> Z) w t csell cbuy vmin effs tg,
+  t_data t = SellAllCoin csell cbuy vmin -> csell <> 0 ->
+  run o_pr o_pa o_sr o_sa w t true = Accept effs tg ->
+  exists commission is_pool,
+    calc_commission o_sa w csell (tx_price (w_prices w) t) = Ok (commission, is_pool) /\
+    let k := sell_all_curve w csell commission (tx_price (w_prices w) t) is_pool in
+    let value := bal w (t_sender t) csell - commission in
+    let bip := o_sr (bc_vol k) (bc_res k) (bc_crr k) value in
+    0 < value /\ value <= bc_vol k /\
+    tag_return tg = (if cbuy =? 0 then bip
+                     else o_pr (bc_vol (coin_or_base w cbuy)) (bc_res (coin_or_base w cbuy)) (bc_crr (coin_or_base w cbuy)) bip).
+Proof. exact sell_all_coin_return_on_curve_after_fee. Qed.
+
+(* non-vacuity: a coin with supply 10^24, reserve 2*10^23; the holder of 10^22 sells all, the fee (price 10^17 base
+   units) is converted through the reserve; with the stand-in formulas x/5 the fee is 2*10^16 coins, the sale is
+   accepted and returns (10^22 - 2*10^16)/5 computed on the curve (10^24 - 2*10^16, 2*10^23 - 10^17) *)
+Definition c12_o (_ _ _ x : Z) : Z := x / 5.
+Definition c12_world : world :=
+  {| w_pools := [];
+     w_coins := [(3, {| bc_vol := 10 ^ 24; bc_res := 2 * 10 ^ 23; bc_crr := 100; bc_max := 10 ^ 30 |})];
+     w_bal := [(7, 3, 10 ^ 22)];
+     w_prices := {| pt_payload_byte := 0; pt_sell_bancor := 10 ^ 17; pt_buy_bancor := 10 ^ 17; pt_sell_all_bancor := 10 ^ 17;
+                    pt_sell_pool_base := 0; pt_sell_pool_delta := 0; pt_buy_pool_base := 0; pt_buy_pool_delta := 0;
+                    pt_sell_all_pool_base := 0; pt_sell_all_pool_delta := 0; pt_failed := 0 |} |}.
+Definition c12_tx : tx := {| t_sender := 7; t_gas_coin := 3; t_gas_price := 1; t_payload_len := 0; t_data := SellAllCoin 3 0 0 |}.
+Example C12_tx_nonvacuous :
+  match run c12_o c12_o c12_o c12_o c12_world c12_tx true with
+  | Accept _ tg => tag_return tg = (10 ^ 22 - 2 * 10 ^ 16) / 5 /\ tag_commission tg = 2 * 10 ^ 16 /\ tag_pool tg = false
+  | _ => False
+  end /\
+  sell_all_curve c12_world 3 (2 * 10 ^ 16) (10 ^ 17) false =
+    {| bc_vol := 10 ^ 24 - 2 * 10 ^ 16; bc_res := 2 * 10 ^ 23 - 10 ^ 17; bc_crr := 100; bc_max := 10 ^ 30 |}.
+Proof. vm_compute. repeat split. Qed.
+
 Print Assumptions C12_purchase_return_formula.
 Print Assumptions C12_purchase_amount_formula.
 Print Assumptions C12_sale_return_formula.
@@ -221,3 +264,4 @@ Print Assumptions C12_tolerance_transfer_round_trip_partial.
 Print Assumptions C12_check_decides.
 Print Assumptions C12_check_sound.
 Print Assumptions C12_full_functions.
+Print Assumptions C12_tx_sell_all_on_the_curve_after_the_fee.
